@@ -11,7 +11,8 @@ from .common import WORK, base_env, log, run
 def main():
     B.build_inproc("release")
     B.build_inproc("debug")
-    log("setup: in-process runner built (release, debug)")
+    B.build_inproc("release", full=True)
+    log("setup: in-process runner built (release, debug, release+full)")
     p = H.Program()
     p.add_case("warm", "pub mod warm {\n#[derive(::educe::Educe)]\n#[educe(Debug, Clone, PartialEq)]\npub struct S(pub u8);\n"
                "pub fn run() { ::verif_rt::guarded(\"warm\", || { ::verif_rt::begin(); ::verif_rt::obs(\"warm\", \"x\", 0, -1, "
